@@ -127,6 +127,16 @@ impl<Fut: Future> FuturesOrdered<Fut> {
     }
 }
 
+#[cfg(futures_buffered_verif)]
+impl<Fut: Future> FuturesOrdered<Fut> {
+    /// Verification hook: start both position counters of an empty queue at `v`.
+    pub fn verif_seed_indices(&mut self, v: usize) {
+        assert!(self.is_empty());
+        self.next_incoming_index = Wrapping(v);
+        self.next_outgoing_index = Wrapping(v);
+    }
+}
+
 impl<Fut: Future> Default for FuturesOrdered<Fut> {
     fn default() -> Self {
         Self::new()
